@@ -3,7 +3,7 @@
 Lean theorems over all reachable states of the L1 model `Iox2.ReqRes` (Props/C11.lean) + the
 differential run real Client / Server ports vs the model (component `reqres`), with the harness's own
 routing / ordering / limit oracles evaluated on the implementation."""
-import core
+import core, compose
 
 # harness oracle messages -> stable keys
 ORACLES = {
@@ -294,6 +294,8 @@ def shrink_new(ctx):
 
 def run(ctx):
     # the findings of this check are registered in /verif/known_findings.json (property C11)
+    # composition level: call orders regenerated from /repo, witness search (the theorems are built by core.prove below)
+    compose.compose_part(ctx)
     core.prove(ctx)
     drv = core.build_driver(ctx)
     ok, err = core.build_harness(ctx)
@@ -335,7 +337,7 @@ def run(ctx):
                         "the stuck loan counter of ActiveRequest::loan (fixed by 1fb407e) is back: after a loan that failed with OutOfMemory the "
                         "active request answers ExceedsMaxLoans")
         ctx.extra["leftover_files_removed"] = cleanup_leftovers()
-    return core.finish(ctx, level="proof", rule=RULE, extra_assumptions=ASSUME)
+    return core.finish(ctx, level="proof", rule=RULE + "; " + compose.rule(ctx), extra_assumptions=list(ASSUME) + compose.ASSUMPTIONS)
 
 
 RULE = ("real Client / Server ports of a request-response service driven through the public API, one call per line: create/drop client (max_active_requests "
